@@ -16,6 +16,7 @@ import (
 func vfH_close_sched() {
 	vfInit()
 	vfClockMaxStep(int64(writeWait) / 4)
+	vfTimersFire(false) // the 1 s best-effort timers of the default handlers do not expire here
 	isServer := vfChoose(2) == 1
 	W := 4
 	gen := &vfGen{fromClient: isServer}
@@ -148,11 +149,22 @@ func vfH_conc_frames() {
 		rErr = err
 	})
 	pDeadline := time.Time{}
+	// the library's own best-effort timers (1 s) do not expire in this harness;
+	// the WriteControl caller's deadline does when the case split says so
+	vfTimersFire(false)
+	fires := false
 	if variant >= 1 {
-		pDeadline = time.Now().Add(time.Millisecond) // may expire while the writer holds the connection
+		fires = vfChoose(2) == 1
+		if fires {
+			pDeadline = time.Now().Add(time.Millisecond) // expires while the writer holds the connection
+		} else {
+			pDeadline = time.Now().Add(time.Hour)
+		}
 	}
 	vfGo(func() {
+		vfTimersFire(fires)
 		pErr = c.WriteControl(PingMessage, []byte("hb"), pDeadline)
+		vfTimersFire(false)
 		if variant == 2 {
 			p2Err = c.WriteControl(PongMessage, nil, time.Time{})
 		}
